@@ -103,7 +103,7 @@ impl Property for C10 {
         vec!["the note is first brought to its normal form, so that formatting effects do not count as effects of the conversion".into(), "notes in which two lists touch each other are not generated: the targeted span and the round trips are modelled for lists that stand alone".into()]
     }
     fn domain_off(&self) -> Vec<&'static str> {
-        vec!["crlf", "item_first_list", "item_first_heading", "empty_item", "html_block", "refdef", "link_title", "front_matter", "setext", "adjacent_lists"]
+        vec!["crlf", "item_first_list", "item_first_heading", "empty_item", "html_block", "refdef", "link_title", "front_matter", "setext"]
     }
     fn max_shrink_iters(&self) -> u32 {
         400
@@ -143,13 +143,17 @@ impl Property for C10 {
         if let Some(r) = crate::canon::domain_discard(&s0) {
             return Verdict::Discard(r);
         }
-        {
+        // Two lists that touch: the targeted span and the section round trip are modelled for lists
+        // that stand alone (iwe keeps touching lists apart by alternating their markers, so converting
+        // one legitimately re-marks its neighbour). Such notes were discarded while iwe wrote touching
+        // lists as one (FX-ADJACENT-LISTS); since that fix they are judged on conservation and on
+        // change-list-type twice = identity, which do not depend on the span model.
+        let touching = {
             let o = crate::canon::CanonOpts { dir: String::new(), mask_refreshable: false };
-            // two lists that touch: the targeted span and the round trips are modelled for lists
-            // that stand alone (changing the type of one of two touching lists can make them one)
-            if crate::canon::has_adjacent_lists_any(&crate::canon::canon(&s0, &o).blocks) {
-                return Verdict::Discard("outside the modelled domain: two lists touch".into());
-            }
+            crate::canon::has_adjacent_lists_any(&crate::canon::canon(&s0, &o).blocks)
+        };
+        if touching {
+            stats.class("touching-lists:conservation+type-twice");
         }
         let mut lib = Lib::new();
         lib.insert(case.key.clone(), case.text.clone());
@@ -214,7 +218,7 @@ impl Property for C10 {
                 return fail(srv, "c10|links-changed".into(), format!("links before {:?}\nlinks after  {:?}\n{}", links_before, links_after, head));
             }
             let in_quote = actions::line_in_quote(&f, off.line as usize);
-            if in_quote {
+            if in_quote || touching {
                 // the targeted span is modelled for the note's own sections and lists
             } else if let (Some((c0, c1)), Some((t0, t1))) = (changed_region(&f, &after), target_span(&f, off.line as usize, &off.kind)) {
                 // one blank line of slack on each side (separators move with the block)
@@ -250,7 +254,7 @@ impl Property for C10 {
                 }
                 srv.did_change(&case.key, &f);
             }
-            if !in_quote && off.kind.ends_with("section.list") {
+            if !in_quote && !touching && off.kind.ends_with("section.list") {
                 // adjacent to a list? (block right before the heading or right after the section)
                 let s = scan::scan(&f);
                 let lines = Lines::new(&f);
